@@ -22,7 +22,7 @@ def known(prop, pattern, what, witness, also=()):
 known("C01", r"^asm_forms\|idx0bare/[^|]*\|C01:accepted\|idx0bare:\w+:rejected:TranslationError",
       "zero-offset indexed operand written as a bare register (README: `LDB X`) is rejected as an undefined symbol",
       {"asm": [" LDB X"]})
-known("C01", r"^asm_forms\|[^|]*/neg\d/\w+/equ\|(C01:decodes|C01:accepted|C02:size|C12:\w+)\|",
+known("C01", r"^asm_forms\|[^|]*/neg\d/\w+/equ\|(C01:decodes|C02:size|C12:rejected)\|[^|]*:(meaning:[^:]*|undecodable:truncated operand|size=\d,len=\d|accepted-invalid):val=-\d+\.\.-\d+:inv=",
       "an EQU symbol defined with a negative literal keeps only the magnitude (V EQU -1 ... #V encodes +1)",
       {"asm": ["V EQU -1", " LDA #V"]}, also=("C02", "C04", "C12"))
 known("C01", r"^asm_forms\|\[?pcr\]?/-/[^|]*\|(C01:decodes|C02:size|C12:\w+)\|\[?pcr\]?:\w+:",
@@ -84,7 +84,7 @@ known("C03", r"^asm_layout\|\[?pcr\]?/\w+/bwd/[^|]*\|C03:target\|[^:]+:bwd:wrong
 known("C03", r"^asm_passes\|fn/determine_pcr_relative_sizes/bwd\|probe\|probe:post:fits8-backward:probe:\w+:bwd:rmb:n=125:pcr8$",
       "the same backward boundary defect at its call site (contract clause post:fits8-backward of determine_pcr_relative_sizes): "
       "min_size counts the bytes between target and statement + 2, the displacement is counted from the end of the 3-byte statement, "
-      "so 126 bytes between give -129 in the 8-bit form", {"asm": ["T NOP", " RMB 125", " LDA T,PCR"]}, also=("C13", "C02"))
+      "so 126 bytes between give -129 in the 8-bit form", {"asm": ["T NOP", " RMB 125", " LDA T,PCR"]}, also=("C13", "C02", "C01"))
 known("C03", r"^asm_layout\|pcr[+-]c/\w+/(fwd|bwd)/[^|]*\|(C03:target|C03:accepted|C02:\w+|C13:[\w-]+)\|",
       "label+-constant,PCR: the constant is applied to the wrong quantity / the operand is mis-sized",
       {"asm": [" LDA T+7,PCR", " RMB 121", "T NOP"]}, also=("C01", "C04", "C02", "C13"))
@@ -113,31 +113,32 @@ known("C04", r"^asm_expr\|\w+/label-(before|after)[+-]label-(before|after)\|(C04
 known("C04", r"^asm_expr\|(fcb|fdb)/[^|]*\|C04:value\|(fcb|fdb):[^|]*:(value-mismatch|count=\d+)",
       "FCB / FDB with a symbol or an expression operand: symbols are not resolved / the result is rendered at the wrong width",
       {"asm": ["V EQU $000A", " FCB V"]}, also=("C05",))
-known("C04", r"^asm_expr\|[^|]*\|C04:width\|[^|]*:unfit-accepted",
+known("C04", r"^asm_expr\|((fcb|fdb)/[^|]*\|C04:width\|[^|]*:unfit-accepted|imm16/[^|]*\|C04:width\|[^|]*:unfit-accepted:val=(65536\.\.|-1000000000\.\.)|imm8/[^|]*-[^|]*\|C04:width\|[^|]*:unfit-accepted:val=-32768\.\.-129)",
       "an expression result that does not fit the operand width is accepted (LDA #0-129)", {"asm": [" LDA #$00-129"]}, also=("C12",))
 known("C04", r"^asm_expr\|equ/[^|]*\|C04:value\|equ:[^|]*:equ-(value=|symbol-has-no-value)",
       "EQU whose operand is a symbol or an expression gets the value 0 / no value", {"asm": ["V EQU $1234", "S EQU V"]})
-known("C04", r"^asm_expr\|[^|]*\|C04:div-by-zero-rejected\|[^|]*:div0-accepted",
+known("C04", r"^asm_expr\|(equ|fcb|fdb)/[^|]*\|C04:div-by-zero-rejected\|(equ|fcb|fdb):[^|]*:div0-accepted",
       "division by zero in an expression is not rejected with a diagnostic", {"asm": ["K EQU 0", " LDA #8/K"]}, also=("C13",))
 known("C04", r"^asm_expr\|(extind|idx|idx16)/[^|]*label[^|]*\|C04:accepted\|[^|]*:rejected:TranslationError",
       "label +- constant inside [..] or as an index offset is rejected", {"asm": ["L NOP", " LDA [L+2]"]})
-known("C13", r"^asm_expr\|[^|]*\|C13:no-internal-error\|[^|]*:escape:(ZeroDivisionError|IndexError|ValueTypeError|AttributeError|TypeError)",
-      "internal errors escape from expression / symbol operands: L/0 -> ZeroDivisionError, label as index offset -> IndexError, "
-      "addresses past $FFFF -> ValueTypeError, expression-valued EQU -> AttributeError",
+known("C13", r"^asm_expr\|[^|]*label-(before|after)[^|]*\|C13:no-internal-error\|[^|]*:escape:(ZeroDivisionError|IndexError|ValueTypeError)$",
+      "internal errors escape from operands that contain an ADDRESS LABEL (they are evaluated after symbol resolution, outside its "
+      "try block): L/0 -> ZeroDivisionError, label as index offset -> IndexError, label terms in FCB / FDB / EQU / wide results -> "
+      "ValueTypeError; expressions without a label are diagnosed",
       {"asm": ["L NOP", " LDA #8/L"]}, also=("C04",))
-known("C04", r"^asm_expr\|[^|]*\|(C04:accepted|C04:rejection-justified)\|[^|]*:rejected:(TranslationError|ParseError)",
-      "valid two-term expressions are rejected in some operand positions", {"asm": ["L NOP", " LDA [L+2]"]})
 
 # ------------------------------------------------------------------------------------------------ data directives (C05)
-known("C05", r"^asm_data\|F[CD]B/\d+[^|]*\|C05:rejects-unfit\|F[CD]B/\d+[^:]*:accepted-unfit",
+known("C05", r"^asm_data\|F[CD]B/\d+[^|]*\|C05:rejects-unfit\|(F[CD]B/1(/equ)?:accepted-unfit:truncated|FCB/[23]:accepted-unfit:longer):",
       "FCB/FDB accept values that do not fit the directive's width (FCB 256 -> 10, FCB 1,256 emits three bytes)",
       {"asm": [" FCB 256"]}, also=("C12",))
-known("C05", r"^asm_data\|F[CD]B/\d+[^|]*\|(C05:bytes|C02:size)\|F[CD]B/\d+[^:]*:(value-mismatch|count=\d+,want=\d+|size=\d+,len=\d+):vals=[^|]*-\d+\.\.-\d+",
-      "FCB/FDB: a single negative value loses its sign, negative list elements are rendered at the wrong width (only lists with "
-      "a negative element)", {"asm": [" FCB -1"]}, also=("C04", "C02"))
+known("C05", r"^asm_data\|F[CD]B/1/[^|]*\|C05:bytes\|F[CD]B/1:value-mismatch:vals=-\d+\.\.-\d+$",
+      "FCB/FDB with a single negative value: the sign is lost (FCB -1 -> 01, FDB -300 -> 012C)", {"asm": [" FCB -1"]}, also=("C04", "C02"))
+known("C05", r"^asm_data\|FDB/[23]/[^|]*\|C05:bytes\|FDB/[23]:value-mismatch:vals=([^|]*,)?-(128\.\.-17|16\.\.-1)(,[^|]*)?$",
+      "FDB lists: an element in -128..-1 is rendered as its 8-bit two's complement, zero extended (FDB 1,-2 -> 0001 00FE); "
+      "elements below -128 and FCB lists are right", {"asm": [" FDB 1,-2"]}, also=("C04", "C02"))
 known("C05", r"^asm_data\|F[CD]B/\d+/[^|]*equ[^|]*\|(C05:bytes|C02:size)\|F[CD]B/\d+/equ[^:]*:(value-mismatch|count=\d+,want=\d+|size=\d+,len=\d+)",
       "FCB/FDB: EQU symbols as elements are not resolved (emit 0)", {"asm": ["V EQU 5", " FCB V"]}, also=("C04", "C02"))
-known("C05", r"^asm_data\|F[CD]B/\d+[^|]*\|(C13:no-internal-error|C05:accepted)\|F[CD]B/[^:]*:(escape:\w+|rejected:\w+)",
+known("C05", r"^asm_data\|F[CD]B/\d+[^|]*\|C13:no-internal-error\|(FCB/[23]:escape:IndexError:|F[CD]B/2/equ-first:escape:ValueTypeError:|F[CD]B/1(/equ)?:escape:ValueTypeError:vals=-1000000000\.\.-32769$)",
       "FCB/FDB lists with a value wider than the directive raise IndexError / ValueTypeError instead of a diagnostic",
       {"asm": [" FCB 1,256"]}, also=("C13",))
 known("C05", r"^asm_data\|FCC/[^|]*\|(C05:fcc-bytes|C02:size|C05:accepted|C13:no-internal-error)\|[^|]*chars=(space(,[a-z,]*)?|([a-z,]*,)?space|[a-z,]*(semicolon|punct)[a-z,]*)$",
@@ -159,7 +160,7 @@ known("C13", r"^asm_layout\|abs/LDA,X/[^|]*\|C13:no-internal-error\|abs/LDA,X:\w
 known("C13", r"^asm_layout\|placement/[\w-]+\|C13:no-internal-error\|placement/[\w-]+:escape:ValueTypeError",
       "a program whose addresses run past $FFFF raises ValueTypeError (integer value cannot exceed 65535) instead of a diagnostic",
       {"asm": [" ORG $FFFF", "T NOP", " JMP T"]})
-known("C13", r"^asm_forms\|[^|]*/(B[A-Z]{2}|LB[A-Z]{2,3})(/equ)?\|C13:no-internal-error\|[^|]*:(B[A-Z]{2}|LB[A-Z]{2,3}):escape:ValueTypeError:",
+known("C13", r"^asm_forms\|[^|]*/(B[A-Z]{2}|LB[A-Z]{2,3})(/equ)?\|C13:no-internal-error\|[^|]*:(B[A-Z]{2}|LB[A-Z]{2,3}):escape:ValueTypeError:val=[^:]*:inv=nomode:",
       "a branch instruction whose operand is not a symbol (no operand, [n], a literal below -32768) raises ValueTypeError "
       "instead of a diagnostic", {"asm": [" BRA [5]"]})
 
@@ -176,7 +177,7 @@ known("C09", r"^vfile_history\|sniff/cas-big-(zero|ff|mixed)\|C09:kind-recognise
       {"files": "cassette image with one 170,000-byte file"}, also=("C13",))
 known("C09", r"^cli_assembler\|asm/cas/append/bigcas/\w+\|C09:append-proceeds\|", "--append to a cassette image >= 161,280 bytes is refused",
       {"cli": "assembler.py prog.asm --to_cas big.cas --append"})
-known("C09", r"^vfile_history\|history/(cas|dsk)/[^|]*\|(C09:history|C09:addition-succeeds)\|history/(cas|dsk)/[\d,]*\b0\b[\d,]*:",
+known("C09", r"^vfile_history\|history/cas/[^|]*\|C09:history\|history/cas/[\d,]*\b0\b[\d,]*:step\d+-file-count=",
       "after an empty file was stored, a later --append loses it and the following files (cassette) or fails to re-open the image (disk)",
       {"files": "history: add empty file, save, re-open, add another"}, also=("C06", "C07"))
 known("C10", r"^(cli_assembler\|asm/cas/append/(raw|arbitrary)/\w+\|C10:(unchanged-other-kind|told-why)|cli_fileutil\|fu/existing-target/dsk-to-cas/raw/append\|C10:(unchanged|told-why)|cli_fileutil\|fu/matrix/(cas|dsk)-to-cas/(raw|arbitrary)/append\|C10:(unchanged-other-kind|told-why))\|",
@@ -185,7 +186,7 @@ known("C10", r"^(cli_assembler\|asm/cas/append/(raw|arbitrary)/\w+\|C10:(unchang
 known("C16", r"^cli_fileutil\|fu/cas-to-(cas|dsk)/lower/files=\w+\|C16:selection\|",
       "--files never selects a cassette file whose stored name is lower case (what assembler.py writes for `NAM hello`): the filter "
       "upper-cases the request but not the stored name", {"cli": "file_util.py host.cas --to_dsk out.dsk --files hello"})
-known("C16", r"^cli_fileutil\|fu/[^|]*/with-empty/all\|C16:converted\|", "conversions lose empty files (and, from cassette, the files after them)",
+known("C16", r"^cli_fileutil\|fu/cas-to-(cas|dsk)/with-empty/all\|C16:converted\|fu/cas-to-(cas|dsk)/with-empty/all:file-count=", "conversions lose empty files (and, from cassette, the files after them)",
       {"cli": "file_util.py host.cas --to_dsk out.dsk"}, also=("C06", "C07"))
 known("C19", r"^include\|missing-file\|C19:missing-file-is-diagnostic\|missing-file:escape:FileNotFoundError",
       "INCLUDE of a missing file escapes as FileNotFoundError (a traceback) instead of a diagnostic", {"asm": [" INCLUDE nothere.asm"]},
@@ -199,7 +200,7 @@ known("C18", r"^meta\|relocate/(abs-[\w-]+|fdb-label)/low/\w+\|C18:relocation-(a
 known("C18", r"^meta\|relocate/fdb-label/\w+/\w+\|C18:relocation-absolute-shifts-by-D\|",
       "FDB label emits 0 instead of the label's address, so it does not follow a relocation", {"asm": [" ORG $1000", "T NOP", " FDB T"]},
       also=("C04", "C05"))
-known("C18", r"^meta\|relocate/abs-(minus|plus|idx)/\w+/\w+\|C18:relocation-[\w-]+\|",
+known("C18", r"^meta\|relocate/abs-minus/low/\w+\|C18:relocation-absolute-shifts-by-D\|relocate/abs-minus/low/\w+:operand-shift",
       "label+-constant / label as index offset do not follow a relocation by exactly D", {"asm": [" ORG $1000", "T NOP", " JSR T-1"]},
       also=("C04",))
 known("C18", r"^meta\|rename/\w+\|C18:renaming-changes-nothing\|rename/\w+:scheme4:status ok vs diag",
